@@ -94,13 +94,13 @@ Qed.
 
 (* ---------- one deletion ---------- *)
 Lemma remove_step_spec pi d w r w' : Core w -> e_remove_sub_element T pi d w = Val (r, w') ->
-  (forall y n, w_nodes w y = Some n -> exists n', w_nodes w' y = Some n' /\ same_or_cleared n n') /\
+  ((forall y n, w_nodes w y = Some n -> exists n', w_nodes w' y = Some n' /\ same_or_cleared n n') /\ roots w' = roots w) /\
   (forall x dn, In x (w_models w) -> Reach w (m_root x) d -> w_nodes w d = Some dn -> n_parent dn = PElem pi ->
                 n_name dn <> SHORT T -> r = OK tt /\ forall z, Reach w d z -> cleared w' z).
 Proof.
   intros C H.
-  assert ((forall y n, w_nodes w y = Some n -> exists n', w_nodes w y = Some n' /\ same_or_cleared n n')) as Same
-    by (intros y n Hn; exists n; split; auto; apply soc_refl).
+  assert ((forall y n, w_nodes w y = Some n -> exists n', w_nodes w y = Some n' /\ same_or_cleared n n') /\ roots w = roots w) as Same
+    by (split; auto; intros y n Hn; exists n; split; auto; apply soc_refl).
   unfold e_remove_sub_element in H. destruct (pi =? d) eqn:Epd.
   { apply wfail_inv in H as (Er & Ew); subst r w'. split; auto. intros x dn Hx Hr Hdn Hp _. exfalso.
     apply N.eqb_eq in Epd. subst pi. eapply (not_own_parent w d d); eauto. exists dn; auto. }
@@ -143,7 +143,7 @@ Proof.
   pose proof (enough_top _ _ C Hda) as He. fold f in He.
   apply wbind_inv in H as [(u & w1 & H1 & H) | (e0 & H1 & _)].
   2:{ destruct (remove_internal_spec T w C f d m path Hda He w _ _ (fun x _ => eq_refl) H1) as ([=] & _). }
-  destruct (remove_internal_spec T w C f d m path Hda He w _ _ (fun x _ => eq_refl) H1) as (_ & _ & _ & Cl & Fr).
+  destruct (remove_internal_spec T w C f d m path Hda He w _ _ (fun x _ => eq_refl) H1) as (_ & _ & Rt & Cl & Fr).
   apply modify_node_wset in H as (nq & Hnq & -> & ->).
   assert (~ In pi (subl f w d)) as Hps by (apply subl_not_parent; auto).
   rewrite (Fr pi Hps) in Hnq. assert (nq = ns) by congruence. subst nq.
@@ -151,7 +151,7 @@ Proof.
   { intros z Hz. pose proof (Cl z Hz) as Hsk. assert (z <> pi) by (intros ->; contradiction).
     unfold cleared. rewrite nodes_wset_neq; auto. unfold skel in Hsk.
     destruct (w_nodes w1 z) as [nz|]; [|discriminate]. injection Hsk as Hp Hk. exists nz. auto. }
-  split.
+  split; [split; [|rewrite roots_wset; exact Rt]|].
   - intros y n Hn. destruct (N.eq_dec y pi) as [->|Hne].
     + assert (n = ns) by congruence. subst n. exists (set_content ns (remove_at (n_content ns) pos)). rewrite nodes_wset_eq.
       split; auto. left. repeat split; auto. intros k Hk. unfold kids in *. cbn in Hk. eapply elems_remove_incl; eauto.
@@ -159,6 +159,95 @@ Proof.
       * destruct (Clr y Hi) as (ny & Hny & Hp & Hk). exists ny. split; auto. right. auto.
       * exists n. rewrite nodes_wset_neq; auto. rewrite (Fr y Hi). split; auto. apply soc_refl.
   - intros x dn Hx Hr Hdn Hp Hnm. split; auto. intros z Hz. apply Clr. apply (subl_reach w f d z C Hda He). exact Hz.
+Qed.
+
+(* ---------- the deletion loop clears every element of its list ---------- *)
+Definition Jrel (w w' : world) : Prop :=
+  forall y n, w_nodes w y = Some n -> exists n', w_nodes w' y = Some n' /\ same_or_cleared n n'.
+
+Lemma Jrel_refl w : Jrel w w.
+Proof. intros y n H. exists n. split; auto. apply soc_refl. Qed.
+Lemma Jrel_trans a b c : Jrel a b -> Jrel b c -> Jrel a c.
+Proof.
+  intros H1 H2 y n Hn. destruct (H1 _ _ Hn) as (n1 & Hn1 & S1). destruct (H2 _ _ Hn1) as (n2 & Hn2 & S2).
+  exists n2. split; auto. eapply soc_trans; eauto.
+Qed.
+Lemma Jrel_cleared w w' z : Jrel w w' -> cleared w z -> cleared w' z.
+Proof.
+  intros J (n & Hn & Hp & Hk). destruct (J _ _ Hn) as (n' & Hn' & [(P & _ & K)|(P & K)]); exists n'; repeat split; auto; try congruence.
+  rewrite Hk in K. destruct (kids n') as [|k l]; auto. exfalso. apply (K k). left. reflexivity.
+Qed.
+
+(* an element that was reached from the root in w0 and is not cleared in wk is reached from the root in wk *)
+Lemma live_persists w0 wk r0 k : Core w0 -> nth_error (roots w0) k = Some r0 -> TreeInv wk -> Jrel w0 wk ->
+  forall y, Reach w0 r0 y -> (forall nk, w_nodes wk y = Some nk -> n_parent nk <> PNone) -> Reach wk r0 y.
+Proof.
+  intros C0 Hr0 (Ck & NOk & _) J y Hr. induction Hr as [(n & Hn)|p c Hp IH Hl]; intros Hnc.
+  - destruct (J _ _ Hn) as (nk & Hnk & _). constructor. exists nk; auto.
+  - destruct (c_up _ C0 _ _ Hl) as (cn & Hcn & Hcp).
+    destruct (J _ _ Hcn) as (cnk & Hcnk & [(P & _ & _)|(P & _)]); [|exfalso; eapply Hnc; eauto].
+    assert (par wk c p) as Hpark by (exists cnk; split; auto; congruence).
+    pose proof (NOk _ _ Hpark) as Hlk.
+    eapply R_kid; eauto. apply IH. intros pnk Hpnk Hpp.
+    destruct Hlk as (pnk' & Hpnk' & Hin). assert (pnk' = pnk) by congruence. subst pnk'.
+    destruct (reach_alloc _ _ _ C0 Hp) as (pn0 & Hpn0).
+    destruct (J _ _ Hpn0) as (pnk'' & Hpnk'' & [(Pp & _ & _)|(_ & Kk)]); assert (pnk'' = pnk) by congruence; subst pnk''.
+    + (* the parent link of p in w0 is not PNone: p is reached from the root *)
+      destruct (reach_cases _ _ _ Hp) as [->|(q & _ & Hlq)].
+      * destruct (c_roots _ C0 _ _ Hr0) as (rn & Hrn & Hrp). congruence.
+      * destruct (c_up _ C0 _ _ Hlq) as (pn1 & Hpn1 & Hpp1). congruence.
+    + rewrite Kk in Hin. destruct Hin.
+Qed.
+
+Lemma del_exact w0 r0 k : Core w0 -> nth_error (roots w0) k = Some r0 ->
+  forall l wk r w', TreeInv wk -> FilesInv T wk -> roots wk = roots w0 -> Jrel w0 wk ->
+  (forall d, In d l -> exists dn p, w_nodes w0 d = Some dn /\ n_parent dn = PElem p /\ n_name dn <> SHORT T /\ Reach w0 r0 d) ->
+  del_loop T l wk = Val (r, w') ->
+  Jrel wk w' /\ TreeInv w' /\ forall d, In d l -> cleared w' d.
+Proof.
+  intros C0 Hr0. induction l as [|d rest IH]; intros wk r w' TI FI Hroots J Hl H; cbn [del_loop] in H.
+  - apply wret_inv in H as (_ & ->). split; [apply Jrel_refl|]. split; auto. intros d [].
+  - pose proof TI as (Ck & NOk & ROk).
+    apply wbind_inv in H as [(dn & w1 & H1 & H) | (e0 & H1 & _)]; [|apply get_node_inv in H1 as (? & _ & [=] & _)].
+    apply get_node_inv in H1 as (dnk & Hdnk & [= <-] & ->).
+    apply wbind_inv in H as [(p & w1 & H1 & H) | (e0 & H1 & _)]; [|apply wtry_inv in H1 as (? & _ & [=])].
+    assert (w1 = wk) as -> by (refine ((_ : ro (wtry (parent_of dn))) _ _ _ H1); ro_tac).
+    destruct (Hl d (or_introl eq_refl)) as (dn0 & p0 & Hdn0 & Hp0 & Hname & Hrd).
+    destruct (J _ _ Hdn0) as (dnk' & Hdnk' & Sd). assert (dnk' = dn) by congruence. subst dnk'.
+    apply wbind_inv in H as [(u & w1 & H2 & H) | (e0 & H2 & _)].
+    2:{ exfalso. destruct p as [[pi|]|]; try discriminate.
+        apply wbind_inv in H2 as [(u1 & w2 & H3 & H2) | (e1 & H3 & _)]; [discriminate|apply wtry_inv in H3 as (? & _ & [=])]. }
+    assert (Jrel wk w1 /\ TreeInv w1 /\ FilesInv T w1 /\ roots w1 = roots wk /\ cleared w1 d) as (J1 & TI1 & FI1 & R1 & Cd).
+    { destruct Sd as [(Pd & Nd & _)|(Pd & Kd)].
+      - (* d is still there: it is deleted now *)
+        unfold parent_of in H1. rewrite Pd, Hp0 in H1. apply wtry_inv in H1 as (rp & H1 & Ep).
+        apply wret_inv in H1 as (-> & _). injection Ep as ->.
+        apply wbind_inv in H2 as [(u1 & w2 & H3 & H2) | (e0 & H3 & _)]; [|apply wtry_inv in H3 as (? & _ & [=])].
+        apply wret_inv in H2 as (_ & Ew). subst w2.
+        destruct (remove_step T _ _ _ _ _ TI FI H3) as (TI1 & FI1 & _).
+        apply wtry_inv in H3 as (r0' & H3 & _).
+        destruct (remove_step_spec p0 d wk r0' w1 Ck H3) as ((A & Rt) & B).
+        assert (exists xk, In xk (w_models wk) /\ m_root xk = r0) as (xk & Hxk & Hxr).
+        { rewrite <- Hroots in Hr0. unfold roots in Hr0. rewrite nth_error_map in Hr0.
+          destruct (nth_error (w_models wk) k) as [xk|] eqn:E; [|discriminate]. injection Hr0 as Hr0.
+          exists xk. split; auto. eapply nth_error_In; eauto. }
+        assert (Reach wk r0 d) as Hrk.
+        { apply (live_persists w0 wk r0 k C0 Hr0 TI J d Hrd). intros nk Hnk. assert (nk = dn) by congruence. subst. congruence. }
+        rewrite <- Hxr in Hrk.
+        assert (n_parent dn = PElem p0) as Hpp by congruence.
+        assert (n_name dn <> SHORT T) as Hnn by congruence.
+        destruct (B xk dn Hxk Hrk Hdnk Hpp Hnn) as (_ & Cl).
+        split; [exact A|]. split; auto. split; auto. split; auto. apply Cl. constructor. exists dn; auto.
+      - (* d has already been cleared with an ancestor *)
+        unfold parent_of in H1. rewrite Pd in H1. apply wtry_inv in H1 as (rp & H1 & Ep).
+        apply wfail_inv in H1 as (-> & _). injection Ep as ->.
+        apply wret_inv in H2 as (_ & ->). split; [apply Jrel_refl|]. split; auto. split; auto. split; auto.
+        exists dn. auto. }
+    destruct (IH w1 r w' TI1 FI1) as (J2 & TI2 & Cl2); auto; try congruence.
+    { eapply Jrel_trans; eauto. }
+    { intros d' Hd'. apply Hl. right. exact Hd'. }
+    split; [eapply Jrel_trans; eauto|]. split; auto.
+    intros d' [<-|Hd']; [eapply Jrel_cleared; eauto | auto].
 Qed.
 
 End Exact2.
